@@ -1201,8 +1201,7 @@ class Hdf5Loader:
             state = self.load(subpath + 'state')
             if 'state_setter' in h5gr:
                 state_setter = self.load(subpath + 'state_setter')
-                obj = state_setter(obj, state)
-                self.memorize_load(h5gr, obj)  # overwrites old memo entry
+                state_setter(obj, state)  # as in the pickle protocol: updates `obj` in place, result ignored
             else:
                 # see pickle._Unpickler.load_build
                 setstate = getattr(obj, '__setstate__', None)
